@@ -3603,7 +3603,10 @@ func (vm *Thread) opSelect() value.Value {
 		}
 	}
 
-	chosenCaseIndex, val, channelOpen := reflect.Select(reflectSelectCases)
+	chosenCaseIndex, val, channelOpen, err := selectCases(reflectSelectCases)
+	if err.IsNotUndefined() {
+		return err
+	}
 	if chosenCaseIndex == 0 {
 		return value.ExecutionAbortedError.ToValue()
 	}
@@ -3657,6 +3660,20 @@ func (vm *Thread) opSelect() value.Value {
 	}
 
 	return value.Undefined
+}
+
+// Run a select over the given cases.
+// A send case that gets chosen panics when its channel is closed,
+// the panic gets converted to the error a push to a closed channel throws.
+func selectCases(cases []reflect.SelectCase) (chosen int, val reflect.Value, channelOpen bool, err value.Value) {
+	defer func() {
+		if r := recover(); r != nil {
+			err = value.ChannelClosedPushError.ToValue()
+		}
+	}()
+
+	chosen, val, channelOpen = reflect.Select(cases)
+	return chosen, val, channelOpen, value.Undefined
 }
 
 func (vm *Thread) opExecDefer() value.Value {
